@@ -273,6 +273,26 @@ class LastArgKeyword(ast.NodeTransformer):
         return node
 
 
+class PadStatements(ast.NodeTransformer):
+    """a `pass` at the start of every function body (after the docstring) and after every if statement"""
+
+    def generic_visit(self, node):
+        super().generic_visit(node)
+        if isinstance(node, (ast.FunctionDef, ast.AsyncFunctionDef)):
+            k = 1 if node.body and isinstance(node.body[0], ast.Expr) and isinstance(node.body[0].value, ast.Constant) and isinstance(node.body[0].value.value, str) else 0
+            node.body.insert(k, ast.Pass())
+        for fld in ("body", "orelse", "finalbody"):
+            v = getattr(node, fld, None)
+            if isinstance(v, list) and v and isinstance(v[0], ast.stmt) and not isinstance(node, ast.ClassDef):
+                out = []
+                for st in v:
+                    out.append(st)
+                    if isinstance(st, ast.If):
+                        out.append(ast.Pass())
+                setattr(node, fld, out)
+        return node
+
+
 class ElseAfterReturn(ast.NodeTransformer):
     """`if c: ...return/raise` followed by the rest of the block -> the rest moves into an else branch"""
 
@@ -334,6 +354,8 @@ def transform(src: str, which: str) -> str:
         if LastArgKeyword.SIGS is None:
             LastArgKeyword.load("/repo")
         tree = LastArgKeyword().visit(tree)
+    if which == "padstmts":
+        tree = PadStatements().visit(tree)
     if which == "reorder":
         tree = ReorderMethods().visit(tree)
     if which == "inlinetemps":
